@@ -159,12 +159,22 @@ fn generate_dynamic(g: &mut Gen, stats: &mut GenStats) -> Scenario {
             stats.restricted += 1;
             continue;
         }
+        // ... nor inside a directory whose permissions another mutation revokes, or the other way
+        // round (triggers fire in any order): the mutator is as unprivileged as the walk and could
+        // not carry it out
+        let blocked = mutations.iter().any(|m: &Mutation| {
+            matches!(m.op, MutOp::Chmod(0) | MutOp::Chmod(0o444)) && is_below(&t.path, &m.path)
+        });
+        if blocked {
+            stats.restricted += 1;
+            continue;
+        }
         let is_dir = t.kind == Kind::Dir;
         // (in-flight triggers may fire in any order, so the restriction is symmetric: no link is
         // made at or above the target of another mutation either)
         let covers_other = mutations.iter().any(|m: &Mutation| is_under(&m.path, &t.path));
         let op = match g.rng.below(if is_dir { 6 } else { 3 }) {
-            2 if covers_other => MutOp::Remove,
+            2 | 3 if covers_other => MutOp::Remove,
             0 => MutOp::Remove,
             1 => MutOp::ToDir(g.rng.range(0, 2)),
             2 => MutOp::Retarget(if g.rng.chance(1, 2) { "nowhere".into() } else { ".".into() }),
@@ -512,6 +522,13 @@ fn dynamic_check(sc: &Scenario, env: &mut Env) -> Result<Outcome, HarnessError> 
     let w = &sc.walkers[wi];
     let view = View::of(&log, wi, &sc.cwd);
     if view.panic.is_some() {
+        return Ok(out);
+    }
+    // A mutation the unprivileged mutator could not carry out (its target lies in a directory whose
+    // permissions an earlier mutation revoked) may have been carried out in part; no model of such
+    // a run is offered, so nothing is judged (not sampled on purpose, see `generate_dynamic`).
+    if log.iter().any(|e| matches!(e, crate::exec::Ev::Mut { result, .. } if result == "PermissionDenied")) {
+        out.probe("mutation:could-not-be-carried-out-run-not-judged");
         return Ok(out);
     }
     let glob = walk_glob(w, &env.root_text);
